@@ -68,10 +68,21 @@ def append_case(case):
     res = {}
     try:
         d.cmd('new')
+        naming = case.get('naming')
         for k, txt in enumerate(case['files']):
-            p = os.path.join(d.dir, 'f%d.stp' % k)
+            # how the files are named must not matter: by default f0.stp, f1.stp ...; 'same-base': every file is called part.stp, each in a directory
+            # of its own (absolute names); 'same-base-relative': the same, named relative to the working directory; 'same-file': one file, given again
+            if naming in ('same-base', 'same-base-relative'):
+                os.makedirs(os.path.join(d.dir, 'dir%d' % k), exist_ok=True)
+                p = os.path.join(d.dir, 'dir%d' % k, 'part.stp')
+            elif naming == 'same-file':
+                p = os.path.join(d.dir, 'f0.stp')
+            else:
+                p = os.path.join(d.dir, 'f%d.stp' % k)
             with open(p, 'wb') as f:
                 f.write(txt.encode('latin1'))
+            if naming == 'same-base-relative':
+                p = os.path.relpath(p, d.dir)
             a = d.cmd(('read ' if k == 0 else 'append ') + p)
             res['sev%d' % k] = drv.kv(a[0])['esev']
         res['dump'] = drv.parse_dump(d.cmd('dump'))
@@ -112,6 +123,8 @@ def shift(v, delta):
 
 def judge(case, res):
     ctx = '%s/%s' % (case['refpats'][-1], case['idpat'] if isinstance(case['idpat'], str) else '+'.join(case['idpat']))
+    if case.get('naming'):
+        ctx = 'files-named:' + case['naming']      # what decides such a failure is the naming, not the reference pattern
     if 'crash' in res:
         return [('crash/%s/%s' % tuple(res['crash']), 'crash %s in %s' % tuple(res['crash']))]
     pops = [p21ref.parse_file(t.encode('latin1')) for t in case['files']]
@@ -231,6 +244,11 @@ def main():
     for rps_, idpat in gen(args.tier):
         files = [make_file('fi', k + 1, rp, idpat) for k, rp in enumerate(rps_)]
         cases.append({'files': files, 'refpats': rps_, 'idpat': idpat})
+    # the first histories again under every way of naming the files
+    for c in list(cases[:(8 if args.tier == 'quick' else 60)]):
+        for naming in ('same-base', 'same-base-relative'):
+            cases.append(dict(c, naming=naming))
+        cases.append(dict(c, naming='same-file', files=[c['files'][0]] * len(c['files'])))
     results = p21run.run_many(lib, cases, fn=append_case, chunksize=4)
     for c, r in zip(cases, results):
         chk.count(states=1, transitions=len(c['files']))
